@@ -6,7 +6,7 @@ Open Scope list_scope.
 
 Arguments step : simpl never.
 
-Definition work_plain (e : env) (t : task) : Prop := forall o, In o (t_work t) -> forces_enable e o = false.
+Definition work_plain (e : env) (t : task) : Prop := forall o, In o (t_work t ++ t_all_pre t) -> forces_enable e o = false.
 
 (* ------------------------------------------------------------------ sync is an execution *)
 
@@ -21,35 +21,38 @@ Proof.
   destruct (run_work e s1 os) as [[s2 l] f]. cbn [fst snd] in *. eapply exec_app; eassumption.
 Qed.
 
-Lemma update_all_exec e t s :
+Lemma update_all_exec e t s : work_plain e t ->
   exec e false s (snd (fst (update_all e t s))) (fst (fst (update_all e t s))).
 Proof.
-  unfold update_all.
-  pose proof (step_exec e s (OUpdateConfig (t_mainver t) (t_all t))) as H1. cbn [forces_enable has_weights andb] in H1.
-  destruct (step e s _) as [s1 x]. exact H1.
+  intros Hw. unfold update_all.
+  pose proof (run_work_exec e (t_all_pre t) s (fun o Hin => Hw o (in_or_app _ _ _ (or_intror Hin)))) as H0.
+  destruct (run_work e s (t_all_pre t)) as [[s0 l0] f0]. cbn [fst snd] in H0.
+  pose proof (step_exec e s0 (OUpdateConfig (t_mainver t) (t_all t))) as H1. cbn [forces_enable has_weights andb] in H1.
+  destruct (step e s0 _) as [s1 x]. cbn [fst snd] in *. eapply exec_app; [apply H0|exact H1].
 Qed.
 
 Lemma handler_exec e t go s : work_plain e t ->
   exec e false s (snd (fst (handler e t go s))) (fst (fst (handler e t go s))).
 Proof.
-  intros Hw. unfold handler. destruct (t_kind t); try (apply run_work_exec; exact Hw).
-  destruct go; [apply update_all_exec|apply x_nil].
+  intros Hw. unfold handler.
+  destruct (t_kind t); try (apply run_work_exec; intros o Hin; apply Hw; apply in_or_app; left; exact Hin).
+  destruct go; [apply update_all_exec; exact Hw|apply x_nil].
 Qed.
 
-Lemma phase_fin_exec e t fin s :
+Lemma phase_fin_exec e t fin s : work_plain e t ->
   exec e false s (snd (fst (phase_fin e t fin s))) (fst (fst (phase_fin e t fin s))).
 Proof.
-  unfold phase_fin. destruct fin; [|apply x_nil].
-  pose proof (update_all_exec e t (set_enabled true s)) as H.
+  intros Hw. unfold phase_fin. destruct fin; [|apply x_nil].
+  pose proof (update_all_exec e t (set_enabled true s) Hw) as H.
   destruct (update_all e t (set_enabled true s)) as [[s' l] r]. cbn [fst snd] in *.
   eapply x_cons; [apply m_enable|exact H].
 Qed.
 
-Lemma phase_end_exec e t bend ua eb s :
+Lemma phase_end_exec e t bend ua eb s : work_plain e t ->
   exec e false s (snd (fst (fst (phase_end e t bend ua eb s)))) (fst (fst (fst (phase_end e t bend ua eb s)))).
 Proof.
-  unfold phase_end. destruct bend; [|apply x_nil]. destruct ua.
-  - pose proof (update_all_exec e t (set_enabled true s)) as H.
+  intros Hw. unfold phase_end. destruct bend; [|apply x_nil]. destruct ua.
+  - pose proof (update_all_exec e t (set_enabled true s) Hw) as H.
     destruct (update_all e t (set_enabled true s)) as [[s' l] r]. cbn [fst snd] in *.
     eapply x_cons; [apply m_enable|exact H].
   - pose proof (step_exec e (set_enabled true s) (OReloadForBatch eb)) as H.
@@ -69,10 +72,10 @@ Proof.
   pose proof (handler_exec e t (ready c && negb batch1) cfg1 Hw) as E2.
   destruct (handler e t (ready c && negb batch1) cfg1) as [[cfg2 l2] rep2]. cbn [fst snd] in E2.
   match goal with |- context [phase_fin e t ?f cfg2] =>
-    pose proof (phase_fin_exec e t f cfg2) as E3; destruct (phase_fin e t f cfg2) as [[cfg3 l3] rep3] end.
+    pose proof (phase_fin_exec e t f cfg2 Hw) as E3; destruct (phase_fin e t f cfg2) as [[cfg3 l3] rep3] end.
   cbn [fst snd] in E3.
   match goal with |- context [phase_end e t ?b ?u ?eb cfg3] =>
-    pose proof (phase_end_exec e t b u eb cfg3) as E4; destruct (phase_end e t b u eb cfg3) as [[[cfg4 l4] rep4] sw4] end.
+    pose proof (phase_end_exec e t b u eb cfg3 Hw) as E4; destruct (phase_end e t b u eb cfg3) as [[[cfg4 l4] rep4] sw4] end.
   cbn [fst snd slog cfg] in *.
   eapply exec_app; [exact E1|]. eapply exec_app; [exact E2|]. eapply exec_app; [exact E3|exact E4].
 Qed.
@@ -118,8 +121,11 @@ Lemma update_all_failure e t s :
   let '(s', l, f) := update_all e t s in existsb is_failed_reload l = f.
 Proof.
   unfold update_all.
-  pose proof (failure_propagates e s (OUpdateConfig (t_mainver t) (t_all t))) as F.
-  destruct (step e s _) as [s1 x]. specialize (F s1 x eq_refl).
+  pose proof (run_work_failure e (t_all_pre t) s) as F0.
+  destruct (run_work e s (t_all_pre t)) as [[s0 l0] f0].
+  pose proof (failure_propagates e s0 (OUpdateConfig (t_mainver t) (t_all t))) as F.
+  destruct (step e s0 _) as [s1 x]. specialize (F s1 x eq_refl).
+  rewrite existsb_app, F0. f_equal.
   destruct (oerr x).
   - destruct (existsb is_failed_reload (log x)); [|reflexivity]. destruct F as [F _]. specialize (F eq_refl). discriminate.
   - destruct F as [_ F]. rewrite (F eq_refl). reflexivity.
@@ -230,7 +236,7 @@ Qed.
    the end of the batch see at least one resource *)
 Theorem ctl_failure_reported_fixed : forall e c t,
   fx_batchrep (fx e) = true -> fx_endprep (fx e) = true ->
-  (t_kind t = TOther -> t_reports t = true) -> t_all_reports t = true -> t_all t <> [] ->
+  (t_kind t <> TConfigMap -> t_reports t = true) -> t_all_reports t = true -> t_all t <> [] ->
   let x := snd (sync e c t) in
   reported x = existsb is_failed_reload (slog x) /\ swallowed x = false.
 Proof.
@@ -239,7 +245,9 @@ Proof.
   pose proof (ctl_swallowed_only_there e c t) as S.
   cbv zeta in *. destruct (swallowed (snd (sync e c t))) eqn:Sw.
   - exfalso. destruct (S eq_refl) as [(_ & _ & _ & [H|H])|[H|H]]; try congruence.
-    unfold reports in H. destruct (t_kind t); try congruence. rewrite (Hr eq_refl) in H. discriminate.
+    unfold reports in H. destruct (t_kind t); try congruence.
+    + rewrite F2, Hr in H; [discriminate|discriminate].
+    + rewrite Hr in H; [discriminate|discriminate].
   - rewrite orb_false_r in T. split; [symmetry; exact T|reflexivity].
 Qed.
 
@@ -261,17 +269,33 @@ Proof. intros (pre & endp & ok & ->). exists (l1 ++ pre), endp, ok. rewrite app_
 Lemma do_writes_enabled rs s : enabled (fst (do_writes rs s)) = enabled s.
 Proof. apply do_writes_wd. Qed.
 
+(* the secret files updateAllConfigs rewrites first are plain writes *)
+Definition is_secret_op (o : op) : bool := match o with OSecret _ _ _ => true | _ => false end.
+Definition pre_secrets (t : task) : Prop := forall o, In o (t_all_pre t) -> is_secret_op o = true.
+
+Lemma run_secrets_enabled e os : forall s,
+  (forall o, In o os -> is_secret_op o = true) -> enabled (fst (fst (run_work e s os))) = enabled s.
+Proof.
+  induction os as [|o os IH]; intros s H; cbn; [reflexivity|].
+  assert (Ho := H o (or_introl eq_refl)). destruct o; try discriminate. unfold step.
+  destruct (do_write_wd (if eager then FSecret else FLazy) name ver s) as [_ W].
+  destruct (do_write _ name ver s) as [s1 l1]. cbn [fst] in W.
+  specialize (IH s1 (fun o' Hin => H o' (or_intror Hin))).
+  destruct (run_work e s1 os) as [[s2 l] f]. cbn [fst] in *. congruence.
+Qed.
+
 (* when the queue drains while a batch is on: if the reload flag is up (a non-endpointslice
    task ran in the batch, or an endpointslice task found resources, or this task does), or a
    ConfigMap was seen in some batch, the last thing the sync does is a Reload call *)
 Theorem batch_end_reloads : forall e c t,
+  pre_secrets t ->
   batch c = true -> t_qlen t = 0 ->
   ebr c = true \/ uab c = true \/ is_endp_task (t_kind t) = false \/ t_found t = true ->
   ends_with_reload (slog (snd (sync e c t))) /\
   batch (fst (sync e c t)) = false /\ ebr (fst (sync e c t)) = false /\
   enabled (cfg (fst (sync e c t))) = true.
 Proof.
-  intros e c t Hb Hq Hflag. unfold sync. rewrite Hb, Hq.
+  intros e c t Hpre Hb Hq Hflag. unfold sync. rewrite Hb, Hq.
   replace (ready c && (1 <? 0)%nat && negb true) with false by (rewrite andb_false_r; reflexivity).
   cbn [orb negb andb Nat.eqb].
   destruct (handler e t (ready c && false) (cfg c)) as [[cfg2 l2] rep2].
@@ -279,18 +303,21 @@ Proof.
   unfold phase_end.
   destruct (uab c || is_cm_task (t_kind t) && true) eqn:U.
   - (* updateAllConfigs *)
-    unfold update_all. unfold step.
-    pose proof (do_write_wd FMain "" (t_mainver t) (set_enabled true cfg3)) as [_ W1].
-    destruct (do_write FMain "" (t_mainver t) (set_enabled true cfg3)) as [s1 l1].
+    unfold update_all.
+    pose proof (run_secrets_enabled e (t_all_pre t) (set_enabled true cfg3) Hpre) as W0.
+    destruct (run_work e (set_enabled true cfg3) (t_all_pre t)) as [[s0 l0] f0]. cbn [fst] in W0.
+    unfold step.
+    pose proof (do_write_wd FMain "" (t_mainver t) s0) as [_ W1].
+    destruct (do_write FMain "" (t_mainver t) s0) as [s1 l1].
     pose proof (do_writes_enabled (t_all t) s1) as W2. destruct (do_writes (t_all t) s1) as [s2 l2'].
     cbn [fst snd] in *.
-    assert (En : enabled s2 = true) by (rewrite W2, W1; reflexivity).
+    assert (En : enabled s2 = true) by (rewrite W2, W1, W0; reflexivity).
     pose proof (finish_reload_ends e false s2 (l1 ++ l2') En) as R.
     pose proof (finish_reload_facts e false s2 (l1 ++ l2')) as F.
     destruct (finish_reload e false s2 (l1 ++ l2')) as [s3 x]. destruct F as [F _].
     cbn [fst snd slog batch ebr cfg log]. cbn [snd] in R.
-    split; [repeat apply ends_with_reload_app; change (EEnable :: log x) with ([EEnable] ++ log x);
-            apply ends_with_reload_app; exact R|].
+    split; [repeat apply ends_with_reload_app; change (EEnable :: l0 ++ log x) with ([EEnable] ++ l0 ++ log x);
+            repeat apply ends_with_reload_app; exact R|].
     repeat split; try reflexivity; try (rewrite andb_false_r; reflexivity); try exact F; try congruence.
   - (* ReloadForBatchUpdates(enableBatchReload) *)
     assert (Hf : ebr c || negb (is_endp_task (t_kind t)) || is_endp_task (t_kind t) && true && t_found t = true).
@@ -312,7 +339,7 @@ Qed.
 
 (* a task is well-formed when an endpointslice task that found no resources does no work *)
 Definition task_wf (t : task) : Prop :=
-  is_endp_task (t_kind t) = true -> t_found t = false -> t_work t = [].
+  (is_endp_task (t_kind t) = true -> t_found t = false -> t_work t = []) /\ pre_secrets t.
 
 (* one sync in the middle of a batch (queue not empty): the batch goes on, the reload flag
    does not fall, and either it is up afterwards or this sync changed no file *)
@@ -323,7 +350,7 @@ Lemma batch_mid_step e c t :
   (ebr c = true -> ebr (fst (sync e c t)) = true) /\
   (ebr (fst (sync e c t)) = true \/ existsb is_change (slog (snd (sync e c t))) = false).
 Proof.
-  intros Wf Hb Hq. unfold task_wf in Wf. unfold sync.
+  intros [Wf _] Hb Hq. unfold sync.
   assert (Q0 : Nat.eqb (t_qlen t) 0 = false) by (apply Nat.eqb_neq; lia).
   rewrite Q0, !andb_false_r.
   set (start := ready c && (1 <? t_qlen t)%nat && negb (batch c)).
@@ -399,7 +426,7 @@ Proof.
   assert (Hacc : ebr ca = true \/ existsb is_change (slog xa) = false) by exact S4.
   pose proof (batch_run_inv e mid ca (existsb is_change (slog xa)) S1 (S2 Hr) Hmid Wm Hacc) as I.
   destruct (run_sync e ca mid) as [c1 xs]. destruct I as (I1 & I2 & I3).
-  pose proof (batch_end_reloads e c1 tn I1 Hn) as R.
+  pose proof (batch_end_reloads e c1 tn (proj2 Wn) I1 Hn) as R.
   pose proof (batch_end_quiet e c1 tn I1 I2 Hn) as Q.
   destruct (sync e c1 tn) as [c2 x]. cbn [fst snd] in *.
   intros Hch. unfold strace in Hch. cbn in Hch. rewrite !existsb_app in Hch. fold (strace xs) in Hch.
@@ -408,7 +435,7 @@ Proof.
     destruct (uab c1) eqn:U; [right; left; reflexivity|].
     destruct (is_endp_task (t_kind tn)) eqn:K; [|right; right; left; reflexivity].
     destruct (t_found tn) eqn:F; [right; right; right; reflexivity|].
-    exfalso. specialize (Q eq_refl eq_refl eq_refl eq_refl (Wn K F)).
+    exfalso. specialize (Q eq_refl eq_refl eq_refl eq_refl (proj1 Wn K F)).
     destruct I3 as [I3|I3]; [discriminate|].
     rewrite Q, orb_false_r in Hch. rewrite Hch in I3. discriminate. }
   destruct (R Hflag) as (R1 & R2 & _ & R4). repeat split; assumption.
@@ -417,7 +444,7 @@ Qed.
 (* ------------------------------------------------------------------ refutations (witnesses replayed on the real code by the harness) *)
 
 Definition mk_task (k : tkind) (q : nat) (w : list op) (f : bool) : task :=
-  {| t_kind := k; t_qlen := q; t_work := w; t_found := f; t_reports := true; t_all_reports := true; t_mainver := 0; t_all := [] |}.
+  {| t_kind := k; t_qlen := q; t_work := w; t_found := f; t_reports := true; t_all_reports := true; t_all_pre := []; t_mainver := 0; t_all := [] |}.
 
 (* start-up (queue drains at once), then a batch of two tasks that touch nothing *)
 Definition idle_batch : list task := [mk_task TOther 0 [] false; mk_task TOther 2 [] false; mk_task TOther 0 [] false].
